@@ -819,6 +819,15 @@ def run(ctx: Ctx) -> None:
     rule_scale(ctx)
     n = rule_mirror(ctx, "C01.MIRROR")
     ctx.floor("C01.MIRROR", n, 9)
+    from ..core import borrow
+    from ..rules_sm import rule_gating
+
+    # the attribute that decides whether the right products exist is derived in the check phase and must reach the run
+    n = borrow(ctx, lambda c: rule_gating(c, "C08.GATING"), {"C08.GATING": "C01.GATING"})
+    ctx.floor("C01.GATING", n, 10)
+    from ..rules_sm import rule_step_key
+
+    ctx.floor("C01.STEP-KEY(functions)", rule_step_key(ctx, "C01.STEP-KEY"), 40)
 
 
 SPEC = PropSpec(
@@ -850,6 +859,8 @@ SPEC = PropSpec(
 
 _SM = SM
 MUTANTS = [
+    {"id": "validation-looked-up-by-bare-name", "file": "pandora/state_machine.py", "old": '        for input_step in cfg["pipeline"]:\n            if input_step.split(".")[0] == "validation":\n                self.right_disp_map = cfg["pipeline"][input_step]["validation_method"]\n', "new": '        if "validation" in cfg["pipeline"]:\n            self.right_disp_map = cfg["pipeline"]["validation"]["validation_method"]\n'},
+    {"id": "run-prepare-resets-right-disp-map", "file": "pandora/state_machine.py", "old": '                self.right_disp_map = cfg["pipeline"][input_step]["validation_method"]\n', "new": '                self.right_disp_map = cfg["pipeline"][input_step]["validation_method"]\n            else:\n                self.right_disp_map = None\n'},
     {"id": "check_filter-from-cost_volume", "file": _SM, "old": '"trigger": "check_filter",\n            "source": "disp_map",', "new": '"trigger": "check_filter",\n            "source": "cost_volume",'},
     {"id": "run-refinement-dest-cost_volume", "file": _SM, "old": '"trigger": "refinement",\n            "source": "disp_map",\n            "dest": "disp_map",', "new": '"trigger": "refinement",\n            "source": "disp_map",\n            "dest": "cost_volume",'},
     {"id": "drop-check_validation-row", "file": _SM, "old": '        {\n            "trigger": "check_validation",\n            "source": "disp_map",\n            "dest": "disp_map",\n            "after": "validation_check_conf",\n        },\n', "new": ""},
